@@ -19,7 +19,7 @@ pub const ID: &str = "C06";
 
 /// The quick sweep covers a fixed set of small fixtures: all four formats, VBA (xlsm and xls),
 /// tables, merged regions, annotations, repeated rows, rich text, BIFF5, a password file, CONTINUE records, defined names / formulas / VBA in xls, formula records in xlsb.
-const QUICK_SWEEP: [&str; 18] = [
+const QUICK_SWEEP: [&str; 19] = [
     "any_sheets.xls",
     "any_sheets.xlsx",
     "any_sheets.xlsb",
@@ -38,6 +38,7 @@ const QUICK_SWEEP: [&str; 18] = [
     "issues.xls",
     "issues.xlsb",
     "issue_391.xlsx",
+    "special_cells.ods",
 ];
 
 pub struct Layout {
